@@ -14,7 +14,7 @@ GUARD = 'OP2UTILITY_VERIF'
 UBSAN = 'signed-integer-overflow,shift,integer-divide-by-zero,bounds,vla-bound,float-cast-overflow,bool,builtin,unreachable,return'
 CONFIGS = {
     'asan': dict(cxx='g++', flags=['-O1', '-g', '-fno-omit-frame-pointer', '-fsanitize=address', '-fsanitize=' + UBSAN,
-                                   '-fno-sanitize-recover=all', '-D_GLIBCXX_SANITIZE_VECTOR']),
+                                   '-fno-sanitize-recover=all', '-D_GLIBCXX_SANITIZE_VECTOR', '-fno-delete-null-pointer-checks']),
     'plain': dict(cxx='g++', flags=['-O2', '-g']),
     'fill0': dict(cxx='g++', flags=['-O0', '-g', '-ftrivial-auto-var-init=zero']),
     'fillfe': dict(cxx='g++', flags=['-O0', '-g', '-ftrivial-auto-var-init=pattern']),
